@@ -17,9 +17,12 @@ for f in sorted(glob.glob(os.path.join(HERE, 'seeded', '*', 'meta.json'))):
             sig = c['violation_signatures'][0].replace('signature: ', '')[:70]
             break
     rows.append('| %s-%s | %s: %s | %s | %s | `%s` |' % (
-        m['property'], m['change'], sub.get('file', '?').replace('src/nfc/', ''),
-        (sub.get('what') or '')[:110].replace('|', '/'),
-        (sub.get('needs_to_manifest') or '')[:100].replace('|', '/'),
+        m['property'], m['change'],
+        (sub.get('file') or ','.join(sub.get('files') or ['?'])).replace(
+            'src/nfc/', ''),
+        ' '.join((sub.get('what') or '').split())[:110].replace('|', '/'),
+        ' '.join((sub.get('needs_to_manifest') or sub.get('needs') or
+                  '').split())[:100].replace('|', '/'),
         det, sig.replace('|', '\\|')))
 print('| id | change | needs to manifest | checks | first signature |')
 print('|---|---|---|---|---|')
